@@ -296,7 +296,11 @@ func vC07Main(rep *vh.Report, c *enum.SegCase, thorough bool) {
 		}
 	}
 	// a restore to the far future rewrites the identical segment and index
-	plan, err := buildRestorePlan(seg, art.IndexBytes, time.UnixMilli(1<<62), created)
+	farFuture := time.UnixMilli(math.MaxInt64)
+	if farFuture.UnixMilli() != math.MaxInt64 {
+		panic("HARNESS-ERROR far-future cutoff does not round-trip")
+	}
+	plan, err := buildRestorePlan(seg, art.IndexBytes, farFuture, created)
 	if err != nil {
 		fail("pitr-plan-error", "buildRestorePlan: %v", err)
 	} else if !plan.keep || !bytes.Equal(plan.segmentBytes, ref) || !bytes.Equal(plan.indexBytes, art.IndexBytes) || plan.baseOffset != c.BaseOffset() || plan.lastOffset != c.LastOffset() {
